@@ -28,6 +28,7 @@ type c04Tx struct {
 	dup       bool
 	admitted  bool
 	finalized bool
+	rival     int // index of a transaction spending the same deposit, or -1
 }
 
 func c04Gen(rng *core.Rng, tier string) *harness.Plan {
@@ -46,8 +47,8 @@ func c04Gen(rng *core.Rng, tier string) *harness.Plan {
 	if tier == "thorough" {
 		n = 40 + rng.IntN(250)
 	}
-	w := []int{3 + rng.IntN(4), 1 + rng.IntN(3), 3 + rng.IntN(4), 2 + rng.IntN(4), rng.IntN(2)}
-	kinds := []string{"lockkeys", "forklockkeys", "validate", "finalize", "restart"}
+	w := []int{3 + rng.IntN(4), 1 + rng.IntN(3), 3 + rng.IntN(4), 2 + rng.IntN(4), rng.IntN(2), 2 + rng.IntN(3)}
+	kinds := []string{"lockkeys", "forklockkeys", "validate", "finalize", "restart", "admit"}
 	for i := 0; i < n; i++ {
 		p.Ops = append(p.Ops, harness.Op{Kind: kinds[weighted(rng, w)], N: rng.IntN(4), A: int64(rng.IntN(1000)), M: rng.IntN(7)})
 	}
@@ -72,8 +73,15 @@ func c04Exec(p *harness.Plan) *harness.Outcome {
 	var txs []*c04Tx
 	for j := 0; j < nT; j++ {
 		tx := common.NewTransactionV5(common.BitcoinAssetId)
-		tx.AddDepositInput(&common.DepositData{Chain: common.BitcoinAssetId, AssetKey: "c6d0c728", Transaction: fmt.Sprintf("c04-%d", j), Index: 0, Amount: common.NewInteger(1)})
-		t := &c04Tx{}
+		src := j
+		t := &c04Tx{rival: -1}
+		if j%2 == 1 && rng.Chance(0.5) && !txs[j-1].dup && len(txs[j-1].ver.Outputs) == 1 {
+			// a rival: spends the same deposit as its predecessor, pays to (partly) other keys
+			src = j - 1
+			t.rival, txs[j-1].rival = j-1, j
+			tx.Extra = []byte("rival") // never the same transaction as its predecessor, even with the same keys
+		}
+		tx.AddDepositInput(&common.DepositData{Chain: common.BitcoinAssetId, AssetKey: "c6d0c728", Transaction: fmt.Sprintf("c04-%d", src), Index: 0, Amount: common.NewInteger(1)})
 		nk := 1 + rng.IntN(3)
 		out := &common.Output{Type: common.OutputTypeScript, Amount: common.NewInteger(1), Script: common.NewThresholdScript(1), Mask: mask}
 		used := map[int]bool{}
@@ -87,7 +95,7 @@ func c04Exec(p *harness.Plan) *harness.Outcome {
 			out.Keys = append(out.Keys, keys[k])
 		}
 		tx.Outputs = append(tx.Outputs, out)
-		if rng.Chance(0.2) {
+		if t.rival < 0 && rng.Chance(0.2) {
 			t.dup = true
 			if rng.Chance(0.5) {
 				out.Keys = append(out.Keys, keys[t.keys[0]])
@@ -175,6 +183,9 @@ func c04Exec(p *harness.Plan) *harness.Outcome {
 				refused++
 			}
 		case "validate":
+			if t.rival >= 0 && (txs[t.rival].admitted || txs[t.rival].finalized) {
+				continue // the deposit is held by the rival: refusal is C03's business, not a key matter
+			}
 			ok := !conflicts(ti) && !t.dup
 			var verr error
 			if g := c.guard("validate-panic", func() { verr = t.ver.Validate(f.Store, ts, false) }); g != nil {
@@ -197,15 +208,39 @@ func c04Exec(p *harness.Plan) *harness.Outcome {
 			} else if t.dup {
 				dupRejected++
 			}
+		case "admit":
+			// admission as the kernel does it: validation (reserves the output keys), input locks, body
+			if t.dup || t.admitted || t.finalized || conflicts(ti) || (t.rival >= 0 && (txs[t.rival].admitted || txs[t.rival].finalized)) {
+				continue
+			}
+			if err := t.ver.Validate(f.Store, ts, false); err != nil {
+				return c.viol("valid-rejected", "op %d: transaction %d rejected: %v", i, ti, err)
+			}
+			bind(ti)
+			if err := f.Admit(t.ver, false); err != nil {
+				return c.tool(fmt.Errorf("admit: %w", err))
+			}
+			t.admitted = true
+			granted++
 		case "finalize":
 			if t.dup || t.finalized {
 				continue
 			}
+			if t.rival >= 0 && txs[t.rival].finalized {
+				continue // the deposit is spent by the finalized rival
+			}
 			if !t.admitted {
-				if err := f.Admit(t.ver, false); err != nil {
+				fork := t.rival >= 0 && txs[t.rival].admitted
+				if err := f.Admit(t.ver, fork); err != nil {
 					return c.tool(fmt.Errorf("admit: %w", err))
 				}
 				t.admitted = true
+				if fork {
+					// the finalization-path takeover prunes the rival's body; the one-time keys the rival
+					// reserved stay reserved for it (the model's bindings do not change)
+					txs[t.rival].admitted = false
+					c.out.Probes["rival_pruned_by_takeover"]++
+				}
 			}
 			ok := !conflicts(ti)
 			before := f.Dump()
@@ -258,7 +293,7 @@ func init() {
 	harness.Register(&harness.Property{
 		ID:    "C04",
 		Level: "exploration",
-		Rule: "seeded interleavings (4 clients, call granularity) of key-set reservations (ordinary and fork), full Validate calls and finalizations over 3-7 one-time keys shared by 4-11 transactions (20% repeat a key among their own outputs), with restarts; all bindings re-read after every operation; failed finalizations compared by full dump; " +
+		Rule: "seeded interleavings (4 clients, call granularity) of key-set reservations (ordinary and fork), full Validate calls and finalizations over 3-7 one-time keys shared by 4-11 transactions (20% repeat a key among their own outputs; half of the odd ones are rivals spending their predecessor's deposit, so that admissions followed by a finalization-path takeover prune a stored transaction whose key reservations must stay), with restarts; all bindings re-read after every operation; failed finalizations compared by full dump; " +
 			"non-trivial = at least one reservation granted and one reservation or finalization refused; distinct = canonical-log digests. The three hard-coded historical hashes are unreachable (they would need a Blake3 preimage) and are reported as probe 0.",
 		Components: r3Components,
 		Assume:     r3Assume,
